@@ -278,9 +278,14 @@ theorem sortKey_inj {ι : Type} (ops : InstOps ι) (hl : ops.Lawful) :
   rintro ⟨e1, i1, k1⟩ ⟨e2, i2, k2⟩ h
   simp only [Subscr.sortKey, List.cons.injEq] at h
   obtain ⟨he, h⟩ := h
-  have := List.append_inj h (hl.len i1 i2)
+  have := List.append_inj' h rfl
   simp only [List.cons.injEq, and_true] at this
   rw [BarterModel.Names.toNat_inj he, hl.inj this.1, SubKind.toNat_inj this.2]
+
+/-- keys of one fixed length line up -/
+theorem InstOps.Lawful.of_len {ι : Type} (ops : InstOps ι) (inj : Function.Injective ops.sortKey)
+    (len : ∀ i j, (ops.sortKey i).length = (ops.sortKey j).length) : ops.Lawful :=
+  ⟨inj, fun i j h => h.eq_of_length (len i j)⟩
 
 theorem IK.sortKey_inj : Function.Injective IK.sortKey := by
   intro a b h
@@ -288,26 +293,126 @@ theorem IK.sortKey_inj : Function.Injective IK.sortKey := by
 
 theorem IK.sortKey_length (k : IK) : k.sortKey.length = 5 := by cases k <;> rfl
 
+/-! #### names as strings -/
+
+theorem ofDigitChars_pad (w n : Nat) : Nat.ofDigitChars 10 (BarterModel.Names.pad w n) 0 = n := by
+  simp only [BarterModel.Names.pad, Nat.ofDigitChars_append, Nat.ofDigitChars_replicate_zero, Nat.mul_zero,
+    Nat.ofDigitChars_ten_toDigits]
+
+theorem pad_inj (w : Nat) : Function.Injective (BarterModel.Names.pad w) := by
+  intro a b h
+  rw [← ofDigitChars_pad w a, ← ofDigitChars_pad w b, h]
+
+theorem assetName_inj : Function.Injective assetName := by
+  intro a b h
+  simp only [assetName, List.cons.injEq, true_and] at h
+  exact pad_inj 3 h
+
+theorem instrumentName_inj : Function.Injective instrumentName := by
+  intro a b h
+  simp only [instrumentName, List.cons.injEq, true_and] at h
+  exact pad_inj 3 h
+
+/-- `strKey` is self-delimiting: a key followed by anything determines the name and the rest. -/
+theorem strKey_append_inj (a b : Str) (x y : List Nat) (h : strKey a ++ x = strKey b ++ y) : a = b ∧ x = y := by
+  induction a generalizing b with
+  | nil =>
+    cases b with
+    | nil => simpa [strKey] using h
+    | cons d b => simp [strKey] at h
+  | cons c a ih =>
+    cases b with
+    | nil => simp [strKey] at h
+    | cons d b =>
+      simp only [strKey, List.map_cons, List.cons_append, List.cons.injEq, Nat.add_right_cancel_iff] at h
+      have hcd : c = d := Char.toNat_inj.mp h.1
+      obtain ⟨hab, hxy⟩ := ih b (by simpa [strKey] using h.2)
+      exact ⟨by rw [hcd, hab], hxy⟩
+
+theorem strKey_append_prefix (a b : Str) (x y : List Nat) (h : strKey a ++ x <+: strKey b ++ y) :
+    a = b ∧ x <+: y := by
+  obtain ⟨t, ht⟩ := h
+  rw [List.append_assoc] at ht
+  obtain ⟨hab, hxy⟩ := strKey_append_inj a b _ _ ht
+  exact ⟨hab, ⟨t, hxy⟩⟩
+
+/-- lexicographic order of concatenations when the heads line up (neither is a proper prefix of the other) -/
+theorem append_le_append_iff_of_sep (a b x y : List Nat) (h1 : a <+: b → a = b) (h2 : b <+: a → b = a) :
+    a ++ x ≤ b ++ y ↔ a < b ∨ (a = b ∧ x ≤ y) := by
+  induction a generalizing b with
+  | nil =>
+    have : b = [] := (h1 (List.nil_prefix)).symm
+    subst this
+    simp
+  | cons c a ih =>
+    cases b with
+    | nil => exact absurd (h2 List.nil_prefix) (by simp)
+    | cons d b =>
+      simp only [List.cons_append, List.cons_le_cons_iff, List.cons_lt_cons_iff, List.cons.injEq]
+      by_cases hcd : c = d
+      · subst hcd
+        have h1' : a <+: b → a = b := fun h => by simpa using h1 (List.cons_prefix_cons.mpr ⟨rfl, h⟩)
+        have h2' : b <+: a → b = a := fun h => by simpa using h2 (List.cons_prefix_cons.mpr ⟨rfl, h⟩)
+        rw [ih b h1' h2']
+        simp
+      · simp [hcd]
+
+/-- `format!("a{n:03}")` below 1000: exactly three digits -/
+theorem pad3_digits : ∀ n ∈ List.range 1000, BarterModel.Names.pad 3 n =
+    [Nat.digitChar (n / 100), Nat.digitChar (n / 10 % 10), Nat.digitChar (n % 10)] := by decide +kernel
+
+theorem digitChar_toNat : ∀ d ∈ List.range 10, (Nat.digitChar d).toNat = 48 + d := by decide
+
+theorem strKey_assetName_small (n : Nat) (h : n < 1000) :
+    strKey (assetName n) = [98, 49 + n / 100, 49 + n / 10 % 10, 49 + n % 10, 0] := by
+  have h3 := pad3_digits n (List.mem_range.mpr h)
+  have d1 := digitChar_toNat (n / 100) (List.mem_range.mpr (by omega))
+  have d2 := digitChar_toNat (n / 10 % 10) (List.mem_range.mpr (by omega))
+  have d3 := digitChar_toNat (n % 10) (List.mem_range.mpr (by omega))
+  simp only [strKey, assetName, h3, List.map_cons, List.map_nil, d1, d2, d3, List.cons_append, List.nil_append]
+  simp only [List.cons.injEq, and_true]
+  refine ⟨by decide, by omega, by omega, by omega⟩
+
 theorem instOps_lawful : instOps.Lawful := by
   refine ⟨?_, ?_⟩
   · rintro ⟨b1, q1, k1⟩ ⟨b2, q2, k2⟩ h
-    simp only [instOps, Inst.sortKey, List.cons_append, List.nil_append, List.cons.injEq] at h
-    rw [h.1, h.2.1, IK.sortKey_inj h.2.2]
-  · intro i j; simp [instOps, Inst.sortKey, IK.sortKey_length]
+    simp only [instOps, Inst.sortKey] at h
+    obtain ⟨hb, h⟩ := strKey_append_inj _ _ _ _ h
+    obtain ⟨hq, h⟩ := strKey_append_inj _ _ _ _ h
+    rw [assetName_inj hb, assetName_inj hq, IK.sortKey_inj h]
+  · rintro ⟨b1, q1, k1⟩ ⟨b2, q2, k2⟩ h
+    simp only [instOps, Inst.sortKey] at h ⊢
+    obtain ⟨hb, h⟩ := strKey_append_prefix _ _ _ _ h
+    obtain ⟨hq, h⟩ := strKey_append_prefix _ _ _ _ h
+    rw [hb, hq, h.eq_of_length (by simp [IK.sortKey_length])]
 
 theorem kinstOps_lawful : kinstOps.Lawful := by
   refine ⟨?_, ?_⟩
   · rintro ⟨n1, ⟨b1, q1, k1⟩⟩ ⟨n2, ⟨b2, q2, k2⟩⟩ h
-    simp only [kinstOps, KInst.sortKey, Inst.sortKey, List.cons_append, List.nil_append, List.cons.injEq] at h
-    rw [h.1, h.2.1, h.2.2.1, IK.sortKey_inj h.2.2.2]
-  · intro i j; simp [kinstOps, KInst.sortKey, Inst.sortKey, IK.sortKey_length]
+    simp only [kinstOps, KInst.sortKey, Inst.sortKey, List.cons.injEq] at h
+    obtain ⟨hn, h⟩ := h
+    obtain ⟨hb, h⟩ := strKey_append_inj _ _ _ _ h
+    obtain ⟨hq, h⟩ := strKey_append_inj _ _ _ _ h
+    rw [hn, assetName_inj hb, assetName_inj hq, IK.sortKey_inj h]
+  · rintro ⟨n1, ⟨b1, q1, k1⟩⟩ ⟨n2, ⟨b2, q2, k2⟩⟩ h
+    simp only [kinstOps, KInst.sortKey, Inst.sortKey] at h ⊢
+    obtain ⟨hn, h⟩ := List.cons_prefix_cons.mp h
+    obtain ⟨hb, h⟩ := strKey_append_prefix _ _ _ _ h
+    obtain ⟨hq, h⟩ := strKey_append_prefix _ _ _ _ h
+    rw [hn, hb, hq, h.eq_of_length (by simp [IK.sortKey_length])]
 
 theorem minstOps_lawful : minstOps.Lawful := by
   refine ⟨?_, ?_⟩
   · rintro ⟨n1, b1, k1⟩ ⟨n2, b2, k2⟩ h
-    simp only [minstOps, MInst.sortKey, List.cons_append, List.nil_append, List.cons.injEq] at h
-    rw [h.1, h.2.1, IK.sortKey_inj h.2.2]
-  · intro i j; simp [minstOps, MInst.sortKey, IK.sortKey_length]
+    simp only [minstOps, MInst.sortKey, List.cons.injEq] at h
+    obtain ⟨hn, h⟩ := h
+    obtain ⟨hb, h⟩ := strKey_append_inj _ _ _ _ h
+    rw [hn, instrumentName_inj hb, IK.sortKey_inj h]
+  · rintro ⟨n1, b1, k1⟩ ⟨n2, b2, k2⟩ h
+    simp only [minstOps, MInst.sortKey] at h ⊢
+    obtain ⟨hn, h⟩ := List.cons_prefix_cons.mp h
+    obtain ⟨hb, h⟩ := strKey_append_prefix _ _ _ _ h
+    rw [hn, hb, h.eq_of_length (by simp [IK.sortKey_length])]
 
 /-! ### D. validation -/
 section validation
@@ -975,6 +1080,169 @@ theorem subscribeOutcome_connect_iff (c : Exch) (insts l : List ι) :
     rw [hi]
     simp only [reduceCtorEq, false_iff, not_and]
     intro h'; exact absurd h' h
+
+/-! #### the first poll of a `subscribe` future -/
+
+theorem callPoll_ne_none (call : Exch × List ι) : callPoll ops call ≠ none := by
+  unfold callPoll; cases subscribeOutcome ops call.1 call.2 <;> simp
+
+theorem callPoll_noErr_iff (call : Exch × List ι) :
+    NoErr (callPoll ops call) ↔ ∃ l, subscribeOutcome ops call.1 call.2 = .connect l := by
+  unfold callPoll NoErr; cases subscribeOutcome ops call.1 call.2 <;> simp
+
+theorem callPoll_error_iff (call : Exch × List ι) (c : Exch) (o : SubscribeOutcome ι) :
+    callPoll ops call = some (.error (c, o)) ↔
+      call.1 = c ∧ subscribeOutcome ops call.1 call.2 = o ∧ ∀ l, o ≠ .connect l := by
+  unfold callPoll
+  cases ho : subscribeOutcome ops call.1 call.2 with
+  | connect l => simp only [reduceCtorEq, false_iff, Option.some.injEq]; rintro ⟨_, rfl, h⟩; exact h l rfl
+  | unsupported i =>
+    simp only [Option.some.injEq, PreNet.error.injEq, Prod.mk.injEq]
+    exact ⟨fun h => ⟨h.1, h.2, by rw [← h.2]; simp⟩, fun h => ⟨h.1, h.2.1⟩⟩
+  | empty =>
+    simp only [Option.some.injEq, PreNet.error.injEq, Prod.mk.injEq]
+    exact ⟨fun h => ⟨h.1, h.2, by rw [← h.2]; simp⟩, fun h => ⟨h.1, h.2.1⟩⟩
+
+theorem callPoll_network_iff (call : Exch × List ι) :
+    callPoll ops call = some .network ↔ ∃ l, subscribeOutcome ops call.1 call.2 = .connect l := by
+  unfold callPoll; cases subscribeOutcome ops call.1 call.2 <;> simp
+
+/-! #### `try_join_all` up to the network -/
+section join
+variable {ε : Type}
+
+theorem joinSmall_network_cons (t : List (Option (PreNet ε))) (e : ε) :
+    joinSmall (some .network :: t) = some (.error e) ↔ joinSmall t = some (.error e) := by
+  simp only [joinSmall]
+  cases h : joinSmall t with
+  | none => simp
+  | some r => cases r <;> simp
+
+theorem joinSmall_error_iff (l : List (Option (PreNet ε))) (e : ε) :
+    joinSmall l = some (.error e) ↔
+      ∃ pre post, l = pre ++ some (.error e) :: post ∧ ∀ x ∈ pre, NoErr x := by
+  induction l with
+  | nil => simp [joinSmall]
+  | cons x t ih =>
+    have step : ∀ (hx : NoErr x), (joinSmall (x :: t) = some (.error e) ↔ joinSmall t = some (.error e)) →
+        (joinSmall (x :: t) = some (.error e) ↔
+          ∃ pre post, x :: t = pre ++ some (.error e) :: post ∧ ∀ y ∈ pre, NoErr y) := by
+      intro hx hstep
+      rw [hstep, ih]
+      constructor
+      · rintro ⟨pre, post, rfl, h⟩
+        refine ⟨x :: pre, post, rfl, ?_⟩
+        intro y hy
+        rcases List.mem_cons.mp hy with rfl | hy
+        · exact hx
+        · exact h y hy
+      · rintro ⟨pre, post, h, hp⟩
+        cases pre with
+        | nil =>
+          simp only [List.nil_append, List.cons.injEq] at h
+          exact absurd h.1 (hx e)
+        | cons p pre =>
+          simp only [List.cons_append, List.cons.injEq] at h
+          exact ⟨pre, post, h.2, fun y hy => hp y (by simp [hy])⟩
+    cases x with
+    | none => exact step (fun e' => by simp) (by simp [joinSmall])
+    | some r =>
+      cases r with
+      | network => exact step (fun e' => by simp) (joinSmall_network_cons t e)
+      | error e0 =>
+        simp only [joinSmall, Option.some.injEq, PreNet.error.injEq]
+        constructor
+        · rintro rfl; exact ⟨[], t, rfl, by simp⟩
+        · rintro ⟨pre, post, h, hp⟩
+          cases pre with
+          | nil => simp only [List.nil_append, List.cons.injEq, Option.some.injEq, PreNet.error.injEq] at h; exact h.1
+          | cons p pre =>
+            simp only [List.cons_append, List.cons.injEq] at h
+            exact absurd h.1.symm (hp p (by simp) e0)
+
+theorem joinSmall_none_iff (l : List (Option (PreNet ε))) : joinSmall l = none ↔ ∀ x ∈ l, x = none := by
+  induction l with
+  | nil => simp [joinSmall]
+  | cons x t ih =>
+    match x with
+    | none => simp [joinSmall, ih]
+    | some (.error e0) => simp [joinSmall]
+    | some .network =>
+      simp only [joinSmall]
+      cases h : joinSmall t with
+      | none => simp
+      | some r => cases r <;> simp
+
+/-- the three outcomes of the small mode -/
+theorem joinSmall_network_iff (l : List (Option (PreNet ε))) :
+    joinSmall l = some .network ↔ (∀ x ∈ l, NoErr x) ∧ ∃ x ∈ l, x ≠ none := by
+  constructor
+  · intro h
+    refine ⟨?_, ?_⟩
+    · intro x hx e hxe
+      subst hxe
+      obtain ⟨pre, post, rfl⟩ := List.append_of_mem hx
+      -- first error in the list decides
+      have : ∃ e', joinSmall (pre ++ some (.error e) :: post) = some (.error e') := by
+        clear h hx
+        induction pre with
+        | nil => exact ⟨e, by simp [joinSmall]⟩
+        | cons p pre ih =>
+          obtain ⟨e', he'⟩ := ih
+          match p with
+          | none => exact ⟨e', by simpa [joinSmall] using he'⟩
+          | some (.error e0) => exact ⟨e0, by simp [joinSmall]⟩
+          | some .network => exact ⟨e', by rw [List.cons_append, joinSmall_network_cons]; exact he'⟩
+      obtain ⟨e', he'⟩ := this
+      rw [h] at he'; cases he'
+    · apply Classical.byContradiction
+      intro hno
+      have : ∀ x ∈ l, x = none := fun x hx => Classical.byContradiction fun hne => hno ⟨x, hx, hne⟩
+      rw [(joinSmall_none_iff l).mpr this] at h; cases h
+  · rintro ⟨hno, x, hx, hxn⟩
+    cases h : joinSmall l with
+    | none => exact absurd ((joinSmall_none_iff l).mp h x hx) hxn
+    | some r =>
+      cases r with
+      | network => rfl
+      | error e =>
+        obtain ⟨pre, post, rfl, _⟩ := (joinSmall_error_iff l e).mp h
+        exact absurd rfl (hno _ (by simp) e)
+
+theorem joinBig_none_iff (l : List (Option (PreNet ε))) : joinBig l = none ↔ ∀ x ∈ l, x = none := by
+  induction l with
+  | nil => simp [joinBig]
+  | cons x t ih => cases x <;> simp [joinBig, ih]
+
+theorem joinBig_some_iff (l : List (Option (PreNet ε))) (r : PreNet ε) :
+    joinBig l = some r ↔ ∃ pre post, l = pre ++ some r :: post ∧ ∀ x ∈ pre, x = none := by
+  induction l with
+  | nil => simp [joinBig]
+  | cons x t ih =>
+    cases x with
+    | none =>
+      simp only [joinBig, ih]
+      constructor
+      · rintro ⟨pre, post, rfl, h⟩
+        exact ⟨none :: pre, post, rfl, by simpa using h⟩
+      · rintro ⟨pre, post, h, hp⟩
+        cases pre with
+        | nil => simp at h
+        | cons p pre =>
+          simp only [List.cons_append, List.cons.injEq] at h
+          exact ⟨pre, post, h.2, fun y hy => hp y (by simp [hy])⟩
+    | some r0 =>
+      simp only [joinBig, Option.some.injEq]
+      constructor
+      · rintro rfl; exact ⟨[], t, rfl, by simp⟩
+      · rintro ⟨pre, post, h, hp⟩
+        cases pre with
+        | nil => simp only [List.nil_append, List.cons.injEq, Option.some.injEq] at h; exact h.1
+        | cons p pre =>
+          simp only [List.cons_append, List.cons.injEq] at h
+          have := hp p (by simp); rw [← h.1] at this; cases this
+
+end join
 
 end builders
 
